@@ -27,6 +27,10 @@ ID = 'C11'
 # py65/memory.py equals the hand model; Props.C11g: the theorems restated for the regenerated definitions.
 LEAN_MODULES = ['Py65.Props.C11', 'Py65.Proofs.ObsMemGenEq', 'Py65.Props.C11g']
 NAMESPACES = ['Py65.Props.C11', 'Py65.Proofs.ObsMemGenEq', 'Py65.Props.C11g']
+# library helpers (CPython behaviour modelled in lean/Py65/Model/*Rt*.lean ...) that the generated code of these
+# modules calls, derived by scanning the Lean sources (harness/rtscan.py); validated against CPython on every run
+import rtcheck  # noqa: E402
+RT_HELPERS = rtcheck.helpers_for(LEAN_MODULES)
 LEVEL = 'proof'
 USES_GEN = False
 pre_build = _c10.pre_build      # tie 1 for py65/memory.py: harness/py2lean_mem.py, before the build
